@@ -293,10 +293,11 @@ func (e *Engine) verifyFunction(key string) (u *Unit, err error) {
 	// ghost parameters (universally quantified)
 	if ct != nil {
 		for _, g := range ct.Ghosts {
-			parts := strings.Fields(g)
+			parts := strings.SplitN(strings.TrimSpace(g), " ", 2)
 			if len(parts) != 2 {
 				return nil, fmt.Errorf("%s: bad ghostparam %q", ct.Where, g)
 			}
+			parts[1] = strings.TrimSpace(parts[1])
 			n := u.fresh("g_"+parts[0], parts[1])
 			var ty types.Type
 			if parts[1] == "Int" {
